@@ -13,7 +13,7 @@ from vf.core import Result, lib
 ID = "C20"
 TITLE = "Plots carry the simulated data and the square-root axis is a true bijection"
 LEVEL = "exploration"
-BUDGET = {"quick": 960, "thorough": 200000}
+BUDGET = {"quick": 1600, "thorough": 200000}
 SHRINK = {"quick": False, "thorough": True}
 RULE = (
     "Headless (Agg) figures; no pixels are compared, only the artists' data. 'reservoir' cases: a simulated "
